@@ -126,10 +126,33 @@ func (sc *specCtx) eval(e SpecExpr) Value {
 		if curIsSt {
 			sc.cur = scratch
 		}
+		oldN0 := -1
+		if sc.old != nil && sc.old != savedSt {
+			oldN0 = len(sc.old.pc)
+		}
 		body := sc.bool(x.Body)
 		sc.st = savedSt
 		if curIsSt {
 			sc.cur = savedSt
+		}
+		if oldN0 >= 0 && len(sc.old.pc) > oldN0 {
+			// facts recorded on the old state while evaluating old(...) under the binder
+			extra := append([]Term(nil), sc.old.pc[oldN0:]...)
+			sc.old.pc = sc.old.pc[:oldN0]
+			for _, t := range extra {
+				delete(sc.old.facts, t.S)
+				mentions := false
+				for _, bv := range vars {
+					if strings.Contains(t.S, bv.S) {
+						mentions = true
+					}
+				}
+				if mentions {
+					savedSt.assume(Forall(vars, t))
+				} else {
+					sc.old.assume(t)
+				}
+			}
 		}
 		// side facts produced while evaluating the body that mention bound vars become hypotheses
 		var hyps []Term
@@ -530,6 +553,32 @@ func (sc *specCtx) goExpr(e ast.Expr, subs map[string]SpecExpr) Value {
 		}
 		return sliceV(bv.T, bv.base(), Add(bv.off(), lo), Sub(hi, lo), Sub(bv.scap(), lo))
 	case *ast.UnaryExpr:
+		if x.Op == token.AND {
+			// &v for a program variable whose address is taken (boxed): the reference of its box
+			if id, ok := ast.Unparen(x.X).(*ast.Ident); ok {
+				if obj, ok := sc.lookupLocal(id.Name); ok {
+					if o, ok := obj.(*types.Var); ok {
+						st := sc.cur
+						if ref, ok := st.boxed[o]; ok {
+							return scalar(types.NewPointer(o.Type()), ref)
+						}
+						if sc.u.old != nil {
+							if ref, ok := sc.u.old.boxed[o]; ok {
+								return scalar(types.NewPointer(o.Type()), ref)
+							}
+						}
+						// an unboxed variable: a temporary box holding its current value (what a call of a
+						// pointer method on the variable sees)
+						if v, ok := st.vars[o]; ok {
+							ref := sc.u.alloc(st, "specbox_"+o.Name())
+							sc.u.store(st, sc.u.derefLV(ref, o.Type()), v)
+							return scalar(types.NewPointer(o.Type()), ref)
+						}
+					}
+				}
+			}
+			sc.errorf("& in spec: operand must be a variable whose address is taken in the function")
+		}
 		v := sc.goExpr(x.X, subs)
 		switch x.Op {
 		case token.NOT:
@@ -568,7 +617,7 @@ func (sc *specCtx) goExpr(e ast.Expr, subs map[string]SpecExpr) Value {
 		case token.QUO:
 			return scalar(pickT(l, r), App("div", SInt, l.term(), r.term()))
 		case token.REM:
-			return scalar(pickT(l, r), App("mod", SInt, l.term(), r.term()))
+			return scalar(pickT(l, r), sc.u.modTerm(nil, l.term(), r.term()))
 		case token.AND, token.OR, token.XOR, token.SHL, token.SHR:
 			// same uninterpreted symbols / constant rules as the program semantics
 			saved := u.checks
@@ -730,6 +779,12 @@ func (sc *specCtx) call(x *ast.CallExpr, subs map[string]SpecExpr) Value {
 	case "pow2": // pow2(k) = 2^k (the function used for 1 << k)
 		f := u.d.Fun("pow2", []Sort{SInt}, SInt)
 		return intV(App(f, SInt, arg(0).term()))
+	case "off": // off(s): absolute position of the first element of slice s in its backing array
+		v := arg(0)
+		if !v.isSlice() {
+			sc.errorf("off() of non-slice")
+		}
+		return intV(v.off())
 	case "base": // base(s): identity of the backing array of slice s
 		v := arg(0)
 		if !v.isSlice() {
@@ -781,6 +836,14 @@ func (sc *specCtx) specFunc(sf *SpecFunc, x *ast.CallExpr, subs map[string]SpecE
 	rt, err := u.eng.resolveType(u.eng.pkgOfFile(sf.File).Types, sf.Ret)
 	if err != nil {
 		sc.errorf("spec func %s: %v", sf.Name, err)
+	}
+	if u.bv && sf.Name == "rotl32" && args[0].term().Sort == BVSort(32) {
+		// in bit-vector lemmas the rotation has its machine meaning (constant amounts only)
+		if n, ok := args[1].term().intVal(); ok && n.IsInt64() {
+			k := ((n.Int64() % 32) + 32) % 32
+			return scalar(args[0].T, Term{fmt.Sprintf("((_ rotate_left %d) %s)", k, args[0].term().S), BVSort(32)})
+		}
+		sc.errorf("rotl32 in a bit-vector lemma needs a constant amount")
 	}
 	if sf.BodyExp != nil && !sf.Opaque {
 		// macro expansion in the current context
@@ -849,7 +912,7 @@ func (sc *specCtx) specFunc(sf *SpecFunc, x *ast.CallExpr, subs map[string]SpecE
 // assumeAxioms adds the global axioms to a state (listed as assumptions in evidence).
 func (u *Unit) assumeAxioms(st *State) {
 	for _, a := range u.eng.cf.Axioms {
-		if a.Lemma {
+		if a.Lemma || a.Manual {
 			continue
 		}
 		c := &Clause{Text: a.Text, File: a.File, Line: a.Line}
